@@ -27,6 +27,9 @@ type c06Graph struct {
 	// Bare: types that ARE a reference or a choice (`@a`, `@a | @b`) instead of an
 	// object holding one; each has exactly one plain or choice link.
 	Bare []string `json:"bare,omitempty"`
+	// OptionalKeys: the schemas are created with keys optional by default: a property
+	// without a rule is no mandatory link; "required" links say `optional: false`.
+	OptionalKeys bool `json:"optionalKeys,omitempty"`
 }
 
 func (g *c06Graph) bare(n string) bool {
@@ -55,6 +58,8 @@ func (l c06Link) text(key string, comma string) string {
 	switch l.Kind {
 	case "plain":
 		return fmt.Sprintf("\t%q: %s%s", key, t, comma)
+	case "required": // says so itself (the only mandatory link where keys are optional by default)
+		return fmt.Sprintf("\t%q: %s%s // {optional: false}", key, t, comma)
 	case "optional":
 		return fmt.Sprintf("\t%q: %s%s // {optional: true}", key, t, comma)
 	case "nullable":
@@ -94,7 +99,7 @@ func c06TypeText(links []c06Link) string {
 }
 
 func (g *c06Graph) project() *project {
-	p := &project{Root: c06TypeText(g.Types["@main"]), Types: map[string]string{}, Self: "@main"}
+	p := &project{Root: c06TypeText(g.Types["@main"]), Types: map[string]string{}, Self: "@main", OptionalKeys: g.OptionalKeys}
 	if g.bare("@main") {
 		l := g.Types["@main"][0]
 		p.Root = l.Targets[0]
@@ -141,12 +146,14 @@ func (g *c06Graph) finite() map[string]bool {
 				if g.nullRoot(n) {
 					break
 				}
-				switch l.Kind {
-				case "plain", "wrapped":
+				switch {
+				case g.OptionalKeys && l.Kind != "required":
+					// keys optional by default: only a link that says optional: false is mandatory
+				case l.Kind == "plain", l.Kind == "wrapped", l.Kind == "required":
 					if !fin[l.Targets[0]] {
 						ok = false
 					}
-				case "choice":
+				case l.Kind == "choice":
 					if !fin[l.Targets[0]] && !fin[l.Targets[1]] {
 						ok = false
 					}
@@ -170,7 +177,10 @@ func (g *c06Graph) selfRequiring() bool {
 			return false
 		}
 		for _, l := range g.Types[n] {
-			if l.Kind != "plain" && l.Kind != "wrapped" {
+			if l.Kind != "plain" && l.Kind != "wrapped" && l.Kind != "required" {
+				continue
+			}
+			if g.OptionalKeys && l.Kind != "required" {
 				continue
 			}
 			t := l.Targets[0]
@@ -274,7 +284,10 @@ func (g *c06Graph) cycleLen() int {
 			continue
 		}
 		for _, l := range g.Types[n] {
-			if l.Kind != "plain" && l.Kind != "wrapped" {
+			if l.Kind != "plain" && l.Kind != "wrapped" && l.Kind != "required" {
+				continue
+			}
+			if g.OptionalKeys && l.Kind != "required" {
 				continue
 			}
 			t := l.Targets[0]
@@ -404,6 +417,21 @@ func c06Run(w *core.W) {
 					g.Types[chain[x]] = links
 				}
 				c06Case(w, g, "chains")
+				// the same graph in schemas whose keys are optional by default: nothing is a
+				// mandatory link; and with every plain link saying `optional: false`
+				if k <= 2 {
+					c06Case(w, &c06Graph{Types: g.Types, OptionalKeys: true}, "chains-optional-keys")
+					g3 := &c06Graph{Types: map[string][]c06Link{}, OptionalKeys: true}
+					for n, ls := range g.Types {
+						for _, l := range ls {
+							if l.Kind == "plain" {
+								l.Kind = "required"
+							}
+							g3.Types[n] = append(g3.Types[n], l)
+						}
+					}
+					c06Case(w, g3, "chains-optional-keys")
+				}
 				// the same graph with the redundant rule type: "mixed" spelled out on every choice
 				if k <= 3 {
 					g2 := &c06Graph{Types: map[string][]c06Link{}}
@@ -552,7 +580,7 @@ func init() {
 	Register(&Prop{
 		ID:        "C06",
 		Technique: "bounded exhaustive enumeration of type-reference graphs (3 object types x property sets with every link kind; chains up to length 7 with every mix of link kinds), judged by a least-fixpoint reference for 'has a finite instance' and a reachability reference for 'requires itself'",
-		Rule:      "F1: @main, @a, @b each an object with 1-2 properties, each property one of {scalar; plain/optional/nullable/array link to one of the 3 types; choice of two types}: all 650 root forms x reduced (thorough: all) forms of the other two; F2: chains @main->t1..tk->@main, k<=4 (thorough 6), each link from 6 kinds, with/without an extra scalar property, and for k<=3 with type: \"mixed\" spelled out on every choice; clauses: finite(root) => not 104; root reaches itself via plain links => 104; accepted => Example() returns RFC 8259 JSON; non-trivial = graphs where a clause applies",
+		Rule:      "F1: @main, @a, @b each an object with 1-2 properties, each property one of {scalar; plain/optional/nullable/array link to one of the 3 types; choice of two types}: all 650 root forms x reduced (thorough: all) forms of the other two; F2: chains @main->t1..tk->@main, k<=4 (thorough 6), each link from 6 kinds, with/without an extra scalar property, and for k<=3 with type: \"mixed\" spelled out on every choice, for k<=2 in schemas whose keys are optional by default (plain links as written and with optional: false); clauses: finite(root) => not 104; root reaches itself via plain links => 104; accepted => Example() returns RFC 8259 JSON; non-trivial = graphs where a clause applies",
 		Bounds: func(tier string) map[string]any {
 			return map[string]any{"types": 3, "max_chain": map[string]int{"quick": 5, "thorough": 7}[tier]}
 		},
